@@ -1,2 +1,534 @@
-From EO Require Import Prelude.Py Model.Spec Model.Elab Model.Ser Model.Deser Model.GenHarness.
-Theorem C02_placeholder : True. Proof. exact I. Qed.
+(* C02 - generated serializers: the bytes produced are exactly those the eo-protocol semantics assign to the
+   declaring XML.
+   `enc_*` (Model/Enc.v) is the wire format as a pure function of (elaborated declaration, value); `ser_*` (Model/Ser.v)
+   is the statement-by-statement semantics of the generated `serialize` over the EoWriter model.  First theorem: they
+   agree (bytes, success, and the writer's mode is left as found).  The others read the format off `enc_*`:
+   document order, arrays (trailing / separating / plain delimiters; element counts), length fields, breaks,
+   hardcoded and dummy values, 0xFF padding, sanitisation by static mode (= inside <chunked> only), switch cases.
+   Last part (elaboration, Model/Elab.v): family/action of generated packets; explicit boolean defaults are no-ops.
+   Statements only: every proof is an application of a lemma from Proofs/EncSer.v or Proofs/ElabAttr.v. *)
+From EO Require Import Prelude.Py Model.Limits Model.Number Model.StringEnc Model.Cp1252 Model.Writer Model.Spec Model.Elab
+  Model.Ser Model.Enc Proofs.EncSer Proofs.ElabAttr.
+Open Scope string_scope.
+Open Scope list_scope.
+Open Scope Z_scope.
+Set Default Timeout 60.
+
+(* ====================== generated code = declarative format ====================== *)
+Theorem C02_ser_is_enc : forall fuel E cls v w w',
+  ser_struct fuel E cls v w = (w', Ok tt) <->
+  exists out, enc_struct fuel E cls v (wsan w) = Some out /\ w' = mkW (wdata w ++ out) (wsan w).
+Proof. exact ser_is_enc. Qed.
+
+(* ... and it raises exactly on the values the declaration gives no encoding to *)
+Theorem C02_ser_fails_iff : forall fuel E cls v w,
+  (exists w' e, ser_struct fuel E cls v w = (w', Err e)) <-> enc_struct fuel E cls v (wsan w) = None.
+Proof. exact ser_fails_iff. Qed.
+
+Theorem C02_serialize_is_encode : forall E cls v san w',
+  serialize E cls v san = (w', Ok tt) <-> exists out, encode E cls v san = Some out /\ w' = mkW out san.
+Proof. exact serialize_is_encode. Qed.
+
+(* the same at every layer, for any sub-serializer that refines its sub-format (open recursion) *)
+Theorem C02_body_refines : forall rs re, refines rs re -> forall d v w,
+  okw (ser_body rs d v w) = put w (enc_body re d v (wsan w)).
+Proof. exact ser_body_refines. Qed.
+
+(* ====================== document order ====================== *)
+(* head instruction first, the rest in the state it leaves: rmo (reached_missing_optional), static mode, bytes so far *)
+Theorem C02_document_order_cons : forall rec flds i is rmo san acc,
+  enc_instrs rec flds (i :: is) rmo san acc =
+  match enc_instr rec flds i rmo san acc with
+  | None => None
+  | Some (out, rmo') => option_map (app out) (enc_instrs rec flds is rmo' (instr_mode i san) (acc ++ out))
+  end.
+Proof. exact enc_instrs_cons. Qed.
+
+(* a body split anywhere: the bytes of the first part, then the bytes of the second part *)
+Theorem C02_document_order_app : forall rec flds a b rmo san acc out,
+  enc_instrs rec flds (a ++ b) rmo san acc = Some out <->
+  exists o1 rmo1 o2, enc_run rec flds a rmo san acc = Some (o1, rmo1) /\
+                     enc_instrs rec flds b rmo1 (mode_after a san) (acc ++ o1) = Some o2 /\ out = o1 ++ o2.
+Proof. exact enc_instrs_app. Qed.
+
+Theorem C02_run_is_instrs : forall rec flds is rmo san acc,
+  enc_instrs rec flds is rmo san acc = option_map fst (enc_run rec flds is rmo san acc).
+Proof. exact enc_instrs_run. Qed.
+
+(* the output of a body is the concatenation, in document order, of one output per instruction *)
+Theorem C02_document_order : forall rec flds is rmo san acc out,
+  enc_instrs rec flds is rmo san acc = Some out <->
+  exists outs, enc_trace rec flds is rmo san acc outs /\ out = List.concat outs.
+Proof. exact enc_instrs_trace. Qed.
+
+Theorem C02_one_output_per_instruction : forall rec flds is rmo san acc outs,
+  enc_trace rec flds is rmo san acc outs -> List.length outs = List.length is.
+Proof. exact enc_trace_length. Qed.
+
+(* ====================== arrays ====================== *)
+(* all three: `go` = the optional guard lets the array through (always, for a required array: C02_required_guard) *)
+Theorem C02_array_trailing : forall rec flds f cnt rmo san acc name elems,
+  f_name f = Some name -> assoc flds name = Some (VList elems) ->
+  enc_instr rec flds (EArray f true true cnt) rmo san acc =
+  let '(rmo', go) := opt_guard (f_optional f) (f_opt_first f) rmo (VList elems) in
+  if go
+  then if array_count_ok f elems
+       then option_map (fun bodies => (List.concat (map (fun b => b ++ [255]) bodies), rmo'))
+              (sequence (map (fun e => enc_value rec (f_ty f) e None false 0 san) elems))
+       else None
+  else Some ([], rmo').
+Proof. intros rec flds f cnt rmo san acc name elems. exact (enc_array_closed rec flds f true true cnt rmo san acc name elems). Qed.
+
+Theorem C02_array_separating : forall rec flds f cnt rmo san acc name elems,
+  f_name f = Some name -> assoc flds name = Some (VList elems) ->
+  enc_instr rec flds (EArray f true false cnt) rmo san acc =
+  let '(rmo', go) := opt_guard (f_optional f) (f_opt_first f) rmo (VList elems) in
+  if go
+  then if array_count_ok f elems
+       then option_map (fun bodies => (intercalate [255] bodies, rmo'))
+              (sequence (map (fun e => enc_value rec (f_ty f) e None false 0 san) elems))
+       else None
+  else Some ([], rmo').
+Proof. intros rec flds f cnt rmo san acc name elems. exact (enc_array_closed rec flds f true false cnt rmo san acc name elems). Qed.
+
+Theorem C02_array_plain : forall rec flds f trailing cnt rmo san acc name elems,
+  f_name f = Some name -> assoc flds name = Some (VList elems) ->
+  enc_instr rec flds (EArray f false trailing cnt) rmo san acc =
+  let '(rmo', go) := opt_guard (f_optional f) (f_opt_first f) rmo (VList elems) in
+  if go
+  then if array_count_ok f elems
+       then option_map (fun bodies => (List.concat bodies, rmo'))
+              (sequence (map (fun e => enc_value rec (f_ty f) e None false 0 san) elems))
+       else None
+  else Some ([], rmo').
+Proof. intros rec flds f trailing cnt rmo san acc name elems. exact (enc_array_closed rec flds f false trailing cnt rmo san acc name elems). Qed.
+
+(* "all elements must have an encoding" *)
+Theorem C02_array_all_elements : forall (l : list (option (list Z))) r, sequence l = Some r <-> l = map Some r.
+Proof. exact (@sequence_spec (list Z)). Qed.
+Theorem C02_array_any_element_fails : forall (l : list (option (list Z))), sequence l = None <-> In None l.
+Proof. exact (@sequence_none (list Z)). Qed.
+
+(* element counts: exactly n for a literal length, at most what the length field carries for a reference *)
+Theorem C02_array_count : forall f elems,
+  array_count_ok f elems = match f_len f with
+                           | LLit n => zlen elems =? n
+                           | LRef _ => zlen elems <=? f_maxlen f
+                           | LNone => true end.
+Proof. reflexivity. Qed.
+
+(* the optional guard: required fields always pass; optional ones pass iff nothing optional was missing before *)
+Theorem C02_required_guard : forall rmo v, opt_guard false false rmo v = (rmo, true) /\ opt_guard false true rmo v = (rmo, true).
+Proof. exact opt_guard_required. Qed.
+Theorem C02_optional_present : forall opt_first rmo v, is_none v = false ->
+  opt_guard true opt_first rmo v = (if opt_first then (false, true) else (rmo, negb rmo)).
+Proof. exact opt_guard_present. Qed.
+Theorem C02_optional_missing : forall opt_first rmo, opt_guard true opt_first rmo VNone = (true, false).
+Proof. exact opt_guard_missing. Qed.
+
+(* ====================== length fields ====================== *)
+Theorem C02_length_field : forall rec flds name t off opt_first fr v l rmo san acc,
+  assoc flds fr = Some v -> py_len v = Some l ->
+  enc_instr rec flds (ELength name t off false opt_first (Some fr)) rmo san acc =
+  option_map (fun o => (o, rmo)) (enc_int t (l - off)).
+Proof. exact enc_length_required. Qed.
+
+Theorem C02_length_field_optional : forall rec flds name t off opt_first fr v l rmo san acc,
+  assoc flds fr = Some v -> py_len v = Some l ->
+  enc_instr rec flds (ELength name t off true opt_first (Some fr)) rmo san acc =
+  let rmo' := if opt_first then false else rmo in
+  if rmo' then Some ([], true) else option_map (fun o => (o, false)) (enc_int t (l - off)).
+Proof. exact enc_length_optional. Qed.
+
+(* the referencing field is None: an optional length field is skipped (with everything optional after it),
+   a required one has no encoding *)
+Theorem C02_length_field_absent : forall rec flds name t off optional opt_first fr rmo san acc,
+  assoc flds fr = Some VNone ->
+  enc_instr rec flds (ELength name t off optional opt_first (Some fr)) rmo san acc =
+  if optional then Some ([], true) else None.
+Proof. exact enc_length_absent. Qed.
+
+(* integers on the wire *)
+Theorem C02_int_encoding : forall t z,
+  enc_int t z = match t with
+                | TByte => if (0 <=? z) && (z <=? 255) then Some [z] else None
+                | _ => if z <=? itype_max t
+                       then match encode_number z with Ok _ => Some (slice (encode_digits z) 0 (itype_size t)) | Err _ => None end
+                       else None
+                end.
+Proof. reflexivity. Qed.
+
+(* one value of each declared type *)
+Theorem C02_value_encoding : forall rec ty v len padded offset san,
+  enc_value rec ty v len padded offset san =
+  match ty with
+  | EInt t => match v with
+              | VInt z => enc_int t (z - offset)
+              | VBool b => enc_int t ((if b then 1 else 0) - offset)
+              | _ => None end
+  | EBool t => enc_int t (if truthy v then 1 else 0)
+  | EEnum _ t => match v with
+                 | VInt z => enc_int t z
+                 | VBool b => enc_int t (if b then 1 else 0)
+                 | _ => None end
+  | EStr enc => match v with VStr s => enc_str san enc s len padded | _ => None end
+  | EBlob => match v with VBytes b => Some b | _ => None end
+  | EStruct n => rec n v san
+  end.
+Proof. reflexivity. Qed.
+
+(* ====================== breaks ====================== *)
+Theorem C02_break : forall rec flds rmo san acc, enc_instr rec flds EBreak rmo san acc = Some ([255], rmo).
+Proof. reflexivity. Qed.
+
+(* ====================== hardcoded and dummy values ====================== *)
+Theorem C02_hardcoded_unnamed : forall rec flds f lit rmo san acc,
+  f_name f = None -> f_hard f = Some lit ->
+  enc_instr rec flds (EField f) rmo san acc =
+  match lit_value (f_ty f) lit with
+  | Ok v => option_map (fun o => (o, rmo))
+              (enc_value rec (f_ty f) v (match f_len f with LLit n => Some n | _ => None end) (f_padded f) 0 san)
+  | Err _ => None
+  end.
+Proof. exact enc_hardcoded_unnamed. Qed.
+
+Theorem C02_hardcoded_independent_of_object : forall rec flds1 flds2 f lit rmo san acc1 acc2,
+  f_name f = None -> f_hard f = Some lit ->
+  enc_instr rec flds1 (EField f) rmo san acc1 = enc_instr rec flds2 (EField f) rmo san acc2.
+Proof.
+  intros rec flds1 flds2 f lit rmo san acc1 acc2 Hn Hh.
+  rewrite (enc_hardcoded_unnamed rec flds1 f lit rmo san acc1 Hn Hh).
+  now rewrite (enc_hardcoded_unnamed rec flds2 f lit rmo san acc2 Hn Hh).
+Qed.
+
+(* a guarded <dummy> is emitted iff the struct has written nothing so far *)
+Theorem C02_dummy : forall rec flds ty lit guarded rmo san acc,
+  enc_instr rec flds (EDummy ty lit guarded) rmo san acc =
+  if guarded && negb (match acc with [] => true | _ => false end) then Some ([], rmo)
+  else match lit_value ty lit with
+       | Ok v => option_map (fun o => (o, rmo)) (enc_value rec ty v None false 0 san)
+       | Err _ => None
+       end.
+Proof. exact enc_dummy. Qed.
+
+(* ====================== strings: padding and sanitisation ====================== *)
+Theorem C02_string_field : forall rec flds f name enc s rmo san acc,
+  f_name f = Some name -> f_ty f = EStr enc -> assoc flds name = Some (VStr s) ->
+  enc_instr rec flds (EField f) rmo san acc =
+  let '(rmo', go) := opt_guard (f_optional f) (f_opt_first f) rmo (VStr s) in
+  if go
+  then if len_ok f (VStr s)
+       then option_map (fun o => (o, rmo')) (enc_str san enc s (field_len f (VStr s)) (f_padded f))
+       else None
+  else Some ([], rmo').
+Proof. exact enc_string_field. Qed.
+
+Theorem C02_padding : forall rec flds f name enc s n rmo san acc,
+  f_name f = Some name -> f_ty f = EStr enc -> f_len f = LLit n -> f_padded f = true ->
+  assoc flds name = Some (VStr s) ->
+  enc_instr rec flds (EField f) rmo san acc =
+  let '(rmo', go) := opt_guard (f_optional f) (f_opt_first f) rmo (VStr s) in
+  if go
+  then if zlen s <=? n
+       then Some (place enc (sanitize san (cp_encode s) ++ zrepeat 255 (n - zlen s)), rmo')
+       else None
+  else Some ([], rmo').
+Proof. exact enc_padded_field. Qed.
+
+Theorem C02_string_image : forall san enc s len padded,
+  enc_str san enc s len padded =
+  match len with
+  | None => Some (place enc (sanitize san (cp_encode s)))
+  | Some n => if padded
+              then if zlen s <=? n then Some (place enc (sanitize san (cp_encode s) ++ zrepeat 255 (n - zlen s))) else None
+              else if zlen s =? n then Some (place enc (sanitize san (cp_encode s))) else None
+  end.
+Proof. reflexivity. Qed.
+
+(* sanitised iff the static mode at the instruction is true ... *)
+Theorem C02_sanitise_by_mode : forall bs,
+  sanitize true bs = map (fun b => if b =? 255 then 121 else b) bs /\ sanitize false bs = bs.
+Proof. intros bs. split; reflexivity. Qed.
+
+(* ... the mode is static: only a <chunked> boundary moves it, and it emits nothing ... *)
+Theorem C02_mode_static : forall i san, instr_mode i san = match i with ESetMode b => b | _ => san end.
+Proof. reflexivity. Qed.
+Theorem C02_set_mode_silent : forall rec flds b rmo san acc, enc_instr rec flds (ESetMode b) rmo san acc = Some ([], rmo).
+Proof. reflexivity. Qed.
+Theorem C02_mode_at : forall is san,
+  mode_after is san = match find (fun i => match i with ESetMode _ => true | _ => false end) (rev is) with
+                      | Some (ESetMode b) => b
+                      | _ => san
+                      end.
+Proof. exact mode_after_static. Qed.
+
+(* ... a nested struct is encoded in the mode current at its field and cannot change its parent's mode ... *)
+Theorem C02_nested_mode : forall rec n v len padded off san, enc_value rec (EStruct n) v len padded off san = rec n v san.
+Proof. reflexivity. Qed.
+
+(* ... and the only mode changes the elaborator emits are the brackets of an outermost <chunked>: inside, mode true *)
+Theorem C02_chunked_brackets : forall T tfuel fuel cls c body rest, cx_chunked c = false ->
+  elab_instrs T tfuel (S fuel) cls c (RChunked body :: rest) =
+  (do _ <- guard (negb (cx_rdummy c));
+   do x <- elab_instrs T tfuel fuel cls (mkCtx true (cx_ropt c) (cx_rdummy c) (cx_fields c) (cx_lenmap c) true) body;
+   let '(c2, es, aux) := x in
+   do r2 <- elab_instrs T tfuel fuel cls (mkCtx false (cx_ropt c2) (cx_rdummy c2) (cx_fields c2) (cx_lenmap c2) (cx_emitted c2)) rest;
+   let '(c'', es', aux') := r2 in
+   Ok (c'', (ESetMode true :: es ++ [ESetMode false]) ++ es', aux ++ aux')).
+Proof. exact elab_chunked_outer. Qed.
+
+Theorem C02_chunked_nested_no_brackets : forall T tfuel fuel cls c body rest, cx_chunked c = true ->
+  elab_instrs T tfuel (S fuel) cls c (RChunked body :: rest) =
+  (do _ <- guard (negb (cx_rdummy c));
+   do x <- elab_instrs T tfuel fuel cls (mkCtx true (cx_ropt c) (cx_rdummy c) (cx_fields c) (cx_lenmap c) (cx_emitted c)) body;
+   let '(c2, es, aux) := x in
+   do r2 <- elab_instrs T tfuel fuel cls (mkCtx true (cx_ropt c2) (cx_rdummy c2) (cx_fields c2) (cx_lenmap c2) (cx_emitted c2)) rest;
+   let '(c'', es', aux') := r2 in
+   Ok (c'', es ++ es', aux ++ aux')).
+Proof. exact elab_chunked_nested. Qed.
+
+Theorem C02_chunked_body_sanitised : forall rec flds es rmo san acc,
+  enc_run rec flds (ESetMode true :: es ++ [ESetMode false]) rmo san acc = enc_run rec flds es rmo true acc /\
+  mode_after (ESetMode true :: es ++ [ESetMode false]) san = false.
+Proof. intros rec flds es rmo san acc. split; [apply enc_run_bracket | apply mode_after_bracket]. Qed.
+
+(* ====================== switches ====================== *)
+Theorem C02_switch_selects : forall rec flds field cases fv dv rmo san acc,
+  assoc flds field = Some fv -> assoc flds (field ++ "_data")%string = Some dv ->
+  enc_instr rec flds (ESwitch field cases) rmo san acc =
+  match find_case cases (switch_key fv) with
+  | Some (mkCase _ (Some cls)) =>
+      match obj_class dv with
+      | Some c' => if String.eqb c' cls then option_map (fun o => (o, rmo)) (rec cls dv san) else None
+      | None => None
+      end
+  | _ => if is_none dv then Some ([], rmo) else None
+  end.
+Proof. exact enc_switch. Qed.
+
+(* the case found: first in document order whose value is the field's, or the default; none = nothing matches *)
+Theorem C02_switch_case_found : forall cases z,
+  match find_case cases z with
+  | Some c => exists pre post, cases = pre ++ c :: post /\ key_matches z c = true /\
+                               forall c', In c' pre -> key_matches z c' = false
+  | None => forall c', In c' cases -> key_matches z c' = false
+  end.
+Proof. exact find_case_spec. Qed.
+
+(* ====================== elaboration: family / action ====================== *)
+(* every generated packet class comes from a <packet> of a net/client or net/server file, is named
+   family ++ action ++ Client/ServerPacket, and reports the ordinals PacketFamily / PacketAction declare for those names *)
+Theorem C02_family_action : forall fs p pk, elab fs = Ok p -> In pk (pk_packets p) ->
+  exists T f rp fa ac suffix efam pfam tf eact pact ta,
+    index_files [] fs = Ok T /\ In f fs /\ In rp (rf_packets f) /\
+    rp_family rp = Some fa /\ rp_action rp = Some ac /\
+    ((rf_path f = "net/client" /\ suffix = "ClientPacket") \/ (rf_path f = "net/server" /\ suffix = "ServerPacket")) /\
+    pp_cls pk = (fa ++ ac ++ suffix)%string /\
+    assoc T "PacketFamily" = Some (RTEnum efam pfam) /\ In (Some fa, Some tf) (re_values efam) /\
+    parse_int tf = Some (pp_family pk) /\
+    assoc T "PacketAction" = Some (RTEnum eact pact) /\ In (Some ac, Some ta) (re_values eact) /\
+    parse_int ta = Some (pp_action pk).
+Proof. exact family_action. Qed.
+
+(* the same with the two enums traced back to the files that declare them *)
+Theorem C02_family_action_declared : forall fs p pk, elab fs = Ok p -> In pk (pk_packets p) ->
+  exists f rp fa ac suffix ffam efam tf fact eact ta,
+    In f fs /\ In rp (rf_packets f) /\ rp_family rp = Some fa /\ rp_action rp = Some ac /\
+    ((rf_path f = "net/client" /\ suffix = "ClientPacket") \/ (rf_path f = "net/server" /\ suffix = "ServerPacket")) /\
+    pp_cls pk = (fa ++ ac ++ suffix)%string /\
+    In ffam fs /\ In efam (rf_enums ffam) /\ re_name efam = Some "PacketFamily" /\
+    In (Some fa, Some tf) (re_values efam) /\ parse_int tf = Some (pp_family pk) /\
+    In fact fs /\ In eact (rf_enums fact) /\ re_name eact = Some "PacketAction" /\
+    In (Some ac, Some ta) (re_values eact) /\ parse_int ta = Some (pp_action pk).
+Proof. exact family_action_declared. Qed.
+
+(* and no declared packet is lost *)
+Theorem C02_every_packet_generated : forall fs p f rp, elab fs = Ok p -> In f fs -> In rp (rf_packets f) ->
+  exists pk fa ac suffix, In pk (pk_packets p) /\ rp_family rp = Some fa /\ rp_action rp = Some ac /\
+    ((rf_path f = "net/client" /\ suffix = "ClientPacket") \/ (rf_path f = "net/server" /\ suffix = "ServerPacket")) /\
+    pp_cls pk = (fa ++ ac ++ suffix)%string.
+Proof. exact every_packet_generated. Qed.
+
+(* ====================== elaboration: XML attributes -> instruction ("as declared") ====================== *)
+Theorem C02_field_as_declared : forall T tfuel c name ty len padded optional text c' es,
+  elab_field T tfuel c name ty len padded optional text = Ok (c', es) ->
+  exists tn t l maxlen, ty = Some tn /\ get_type T tfuel tn len = Ok t /\ elab_len c len = Ok (l, maxlen) /\
+    es = [EField (mkField name (ti_ty t) l (bool_attr padded false) (bool_attr optional false) (negb (cx_ropt c)) text maxlen)].
+Proof. exact elab_field_inv. Qed.
+
+Theorem C02_array_as_declared : forall T tfuel c name ty len optional delimited trailing c' es,
+  elab_array T tfuel c name ty len optional delimited trailing = Ok (c', es) ->
+  exists n tn t l maxlen cnt, name = Some n /\ ty = Some tn /\ get_type T tfuel tn None = Ok t /\
+    elab_len c len = Ok (l, maxlen) /\
+    es = [EArray (mkField (Some n) (ti_ty t) l false (bool_attr optional false) (negb (cx_ropt c)) None maxlen)
+                 (bool_attr delimited false) (bool_attr trailing true) cnt] /\
+    (bool_attr delimited false = true -> cx_chunked c = true).
+Proof. exact elab_array_inv. Qed.
+
+Theorem C02_length_as_declared : forall T tfuel c name ty offset optional c' es,
+  elab_length T tfuel c name ty offset optional = Ok (c', es) ->
+  exists n tn t i off, name = Some n /\ ty = Some tn /\ get_type T tfuel tn None = Ok t /\ ti_ty t = EInt i /\
+    match offset with None => off = 0 | Some o => parse_int o = Some off end /\
+    es = [ELength n i off (bool_attr optional false) (negb (cx_ropt c)) None].
+Proof. exact elab_length_inv. Qed.
+
+Theorem C02_dummy_as_declared : forall T tfuel c ty text c' es,
+  elab_dummy T tfuel c ty text = Ok (c', es) ->
+  exists tn lit t, ty = Some tn /\ text = Some lit /\ get_type T tfuel tn None = Ok t /\
+    es = [EDummy (ti_ty t) lit (cx_emitted c)].
+Proof. exact elab_dummy_inv. Qed.
+
+(* ====================== elaboration: explicit boolean defaults ====================== *)
+Theorem C02_bool_attr_default : forall s, String.eqb (lower s) "true" = false -> bool_attr (Some s) false = bool_attr None false.
+Proof. exact bool_attr_default_false. Qed.
+
+Theorem C02_bool_attr_default_true : forall s, String.eqb (lower s) "true" = true -> bool_attr (Some s) true = bool_attr None true.
+Proof. exact bool_attr_default_true. Qed.
+
+(* norm_instr erases, through the whole instruction tree, every optional / padded / delimited / default attribute that
+   does not spell true and every trailing-delimiter attribute that does *)
+Theorem C02_norm_erases : forall s,
+  erase_false (Some s) = (if String.eqb (lower s) "true" then Some s else None) /\
+  erase_true (Some s) = (if String.eqb (lower s) "true" then None else Some s).
+Proof. intros s. split; reflexivity. Qed.
+
+Theorem C02_norm_instr_def : forall i,
+  norm_instr i = match i with
+                 | RField n ty l p o tx => RField n ty l (erase_false p) (erase_false o) tx
+                 | RArray n ty l o d tr => RArray n ty l (erase_false o) (erase_false d) (erase_true tr)
+                 | RLength n ty off o => RLength n ty off (erase_false o)
+                 | RDummy ty tx => RDummy ty tx
+                 | RSwitch f cases => RSwitch f (map norm_case cases)
+                 | RChunked b => RChunked (map norm_instr b)
+                 | RBreak => RBreak
+                 end
+  /\ forall v d b, norm_case (RCase v d b) = RCase v (erase_false d) (map norm_instr b).
+Proof. intros i. split; [destruct i; reflexivity | reflexivity]. Qed.
+
+Theorem C02_explicit_defaults_instr : forall T tfuel fuel cls c i rest,
+  elab_instrs T tfuel fuel cls c (norm_instr i :: rest) = elab_instrs T tfuel fuel cls c (i :: rest).
+Proof. exact elab_instr_attr. Qed.
+
+Theorem C02_explicit_defaults_same_spec : forall T tfuel fuel cls c is,
+  elab_instrs T tfuel fuel cls c (map_norm is) = elab_instrs T tfuel fuel cls c is.
+Proof. exact elab_instrs_norm. Qed.
+
+(* whole protocols: structs referenced through the type environment included *)
+Theorem C02_explicit_defaults_same_protocol : forall fs, elab (map norm_file fs) = elab fs.
+Proof. exact elab_norm_files. Qed.
+
+(* ====================== examples ====================== *)
+Definition ex_fld n ty len pad := mkField (Some n) ty len pad false true None 252.
+Definition ex_env : env :=
+  [ mkSDef "Inner" [EField (ex_fld "s" (EStr false) LNone false)];
+    mkSDef "P.KData1" [EField (ex_fld "extra" (EInt TShort) LNone false)];
+    mkSDef "P"
+      [ EField (ex_fld "k" (EInt TChar) LNone false);
+        ELength "n" TChar 1 false true (Some "name");
+        EField (ex_fld "name" (EStr false) (LRef "n") false);
+        EField (mkField None (EStr false) (LLit 2) false false true (Some "hi") 0);
+        ESetMode true;
+        EField (ex_fld "title" (EStr false) LNone false);
+        EBreak;
+        EArray (ex_fld "items" (EStruct "Inner") LNone false) true false ACWhile;
+        EBreak;
+        EArray (ex_fld "nums" (EInt TChar) LNone false) true true ACWhile;
+        EField (ex_fld "tag" (EStr false) (LLit 4) true);
+        ESetMode false;
+        ESwitch "k" [mkCase (CKValue 1) (Some "P.KData1"); mkCase CKDefault None];
+        EDummy (EInt TByte) "255" true ] ].
+Definition ex_inner s := VObj "Inner" [("s", VStr s)].
+Definition ex_value (k : Z) (kd : value) : value :=
+  VObj "P" [("k", VInt k); ("name", VStr [65; 255]); ("title", VStr [66; 255]);
+            ("items", VList [ex_inner [97; 255]; ex_inner [98]]); ("nums", VList [VInt 0; VInt 5]); ("tag", VStr [67; 68]);
+            ("k_data", kd)].
+
+(* k | len(name)-1 | name raw (0xFF kept: not chunked) | "hi" | title sanitised | FF | items joined by FF | FF |
+   nums each followed by FF | tag padded to 4 | case 1 data (short 300) | guarded dummy suppressed *)
+Example C02_ex_bytes :
+  encode ex_env "P" (ex_value 1 (VObj "P.KData1" [("extra", VInt 300)])) false
+  = Some [2; 2; 65; 255; 104; 105; 66; 121; 255; 97; 121; 255; 98; 255; 1; 255; 6; 255; 67; 68; 255; 255; 48; 2]
+  /\ serialize ex_env "P" (ex_value 1 (VObj "P.KData1" [("extra", VInt 300)])) false
+  = (mkW [2; 2; 65; 255; 104; 105; 66; 121; 255; 97; 121; 255; 98; 255; 1; 255; 6; 255; 67; 68; 255; 255; 48; 2] false, Ok tt).
+Proof. vm_compute. split; reflexivity. Qed.
+
+(* default (empty) case: data must be None, nothing is written; wrong case class / stray data: no encoding *)
+Example C02_ex_switch :
+  encode ex_env "P" (ex_value 7 VNone) false
+  = Some [8; 2; 65; 255; 104; 105; 66; 121; 255; 97; 121; 255; 98; 255; 1; 255; 6; 255; 67; 68; 255; 255]
+  /\ encode ex_env "P" (ex_value 7 (VObj "P.KData1" [("extra", VInt 300)])) false = None
+  /\ encode ex_env "P" (ex_value 1 VNone) false = None
+  /\ encode ex_env "P" (ex_value 1 (VObj "Inner" [("s", VStr [])])) false = None.
+Proof. vm_compute. repeat split. Qed.
+
+(* a guarded dummy is the only content of an otherwise empty struct *)
+Example C02_ex_dummy :
+  encode [mkSDef "D" [EDummy (EInt TByte) "255" true]] "D" (VObj "D" []) false = Some [255]
+  /\ encode [mkSDef "D" [EBreak; EDummy (EInt TByte) "255" true]] "D" (VObj "D" []) false = Some [255]
+  /\ encode [mkSDef "D" [EBreak; EDummy (EInt TByte) "7" false]] "D" (VObj "D" []) false = Some [255; 7].
+Proof. vm_compute. repeat split. Qed.
+
+(* -1 is encodable in every non-byte integer type (as EoWriter does), -2 is not; a byte is a plain byte *)
+Example C02_ex_ints :
+  enc_int TChar (-1) = Some [0] /\ enc_int TShort (-1) = Some [0; 254] /\ enc_int TChar (-2) = None /\
+  enc_int TByte (-1) = None /\ enc_int TChar 252 = Some [253] /\ enc_int TChar 253 = None /\
+  enc_int TThree 64009 = Some [1; 1; 2].
+Proof. vm_compute. repeat split. Qed.
+
+Definition ex_files (explicit : bool) : list rfile :=
+  let a (s : string) : option string := if explicit then Some s else None in
+  [ mkRFile "net" [mkREnum (Some "PacketFamily") (Some "byte") [(Some "Init", Some "1")];
+                   mkREnum (Some "PacketAction") (Some "byte") [(Some "Ping", Some "2")]] [] [];
+    mkRFile "net/client" [] []
+      [mkRPacket (Some "Init") (Some "Ping")
+         [RField (Some "x") (Some "char") None (a "false") (a "FALSE") None;
+          RChunked [RArray (Some "a") (Some "char") None (a "no") (Some "true") (a "True")]]] ].
+
+Example C02_ex_defaults :
+  map norm_file (ex_files true) = ex_files false /\ ex_files true <> ex_files false /\
+  elab (ex_files true) = elab (ex_files false) /\
+  (exists p, elab (ex_files true) = Ok p /\ pk_packets p = [mkPPacket "InitPingClientPacket" 1 2]).
+Proof.
+  split; [vm_compute; reflexivity|]. split; [intros H; discriminate H|]. split; [vm_compute; reflexivity|].
+  eexists. split; [vm_compute; reflexivity | reflexivity].
+Qed.
+
+Print Assumptions C02_ser_is_enc.
+Print Assumptions C02_ser_fails_iff.
+Print Assumptions C02_serialize_is_encode.
+Print Assumptions C02_body_refines.
+Print Assumptions C02_document_order_cons.
+Print Assumptions C02_document_order_app.
+Print Assumptions C02_document_order.
+Print Assumptions C02_array_trailing.
+Print Assumptions C02_array_separating.
+Print Assumptions C02_array_plain.
+Print Assumptions C02_length_field.
+Print Assumptions C02_length_field_optional.
+Print Assumptions C02_length_field_absent.
+Print Assumptions C02_break.
+Print Assumptions C02_hardcoded_unnamed.
+Print Assumptions C02_hardcoded_independent_of_object.
+Print Assumptions C02_dummy.
+Print Assumptions C02_string_field.
+Print Assumptions C02_padding.
+Print Assumptions C02_sanitise_by_mode.
+Print Assumptions C02_mode_at.
+Print Assumptions C02_chunked_brackets.
+Print Assumptions C02_chunked_body_sanitised.
+Print Assumptions C02_switch_selects.
+Print Assumptions C02_switch_case_found.
+Print Assumptions C02_family_action.
+Print Assumptions C02_family_action_declared.
+Print Assumptions C02_every_packet_generated.
+Print Assumptions C02_field_as_declared.
+Print Assumptions C02_array_as_declared.
+Print Assumptions C02_length_as_declared.
+Print Assumptions C02_dummy_as_declared.
+Print Assumptions C02_bool_attr_default.
+Print Assumptions C02_bool_attr_default_true.
+Print Assumptions C02_explicit_defaults_instr.
+Print Assumptions C02_explicit_defaults_same_spec.
+Print Assumptions C02_explicit_defaults_same_protocol.
+Print Assumptions C02_ex_bytes.
+Print Assumptions C02_ex_defaults.
